@@ -239,4 +239,11 @@ func runC02(c *Ctx) {
 	const r7 = "C02.R7 a session's end reaches the dealer"
 	ruleSessionRemoval(c, r7)
 	c.R.Floor(r7, 14)
+
+	const r8 = "C02.R8 a refused call is not recorded (no second final reply through CANCEL or callee departure)"
+	ruleCallRecording(c, r8)
+	c.R.Floor(r8, 3)
+	const r9 = "C02.R9 a router-handled timeout arms the timer"
+	ruleTimeout(c, r9)
+	c.R.Floor(r9, 12)
 }
